@@ -268,7 +268,9 @@ def gen_case(rng: random.Random, scenario: Optional[str] = None, thorough: bool 
         distractors(rng, case, lines, avoid)
         r = rng.random()
         case['kh']['form'] = 'bytes' if r < 0.64 else 'file' if r < 0.72 else 'object' if r < 0.80 else \
-            'callable' if r < 0.87 else 'tuple' if r < 0.93 else 'homefile' if r < 0.98 else 'nohome'
+            'callable' if r < 0.87 else 'tuple' if r < 0.90 else 'tuplepriv' if r < 0.91 else \
+            'tuplerevpriv' if r < 0.93 else \
+            'homefile' if r < 0.98 else 'nohome'
         case['kh']['text'] = ''.join(l + rng.choice(['\n', '\n', '\r\n']) for l in lines)
     # handshake variations
     r = rng.random()
